@@ -346,7 +346,9 @@ func firstLine(s string) string { return strings.SplitN(s, "\n", 2)[0] }
 // Every coinbase/burn event of the block's ledger must be one of the allowed
 // kinds; the ledger's self-check ties the events to the real supply.
 
-type MonC15 struct{}
+type MonC15 struct {
+	ext map[string]sdkmath.Int // supply of every externally issued denom at the start of the run
+}
 
 func (m *MonC15) Name() string { return "C15" }
 func (m *MonC15) AtEnd(s *Sim)  {}
@@ -356,6 +358,21 @@ func isShareDenom(d string) bool {
 }
 
 func (m *MonC15) AfterBlock(s *Sim, eb *ExecBlock) {
+	// state-based, independent of events: the supply of every externally issued asset is constant
+	if m.ext == nil {
+		m.ext = map[string]sdkmath.Int{}
+		for _, a := range Universe {
+			if a.Denom != DenomELYS {
+				m.ext[a.Denom] = s.N0.App.BankKeeper.GetSupply(s.Ctx(), a.Denom).Amount
+			}
+		}
+	}
+	for d, want := range m.ext {
+		if got := s.N0.App.BankKeeper.GetSupply(s.Ctx(), d).Amount; !got.Equal(want) {
+			s.Violate("C15", "external_supply_changed", culpritOfBlock(eb, nil), "supply of %s changed from %s to %s", d, want, got)
+			m.ext[d] = got
+		}
+	}
 	if !s.Ledger.BlockOK {
 		return
 	}
